@@ -360,7 +360,7 @@ macro_rules! g_frame1 {
     ($name:ident, $ty:ty, $bs:expr, $valid:expr, $dir:ident $(, stubs: [$(($o:path, $r:path)),*])?) => {
         verif_harness! {
             name: $name,
-            bytes: core::mem::size_of::<$ty>() + $bs,
+            bytes: core::mem::size_of::<$ty>() + 2 * $bs,
             unwind: 5000,
             $(stubs: [$(($o, $r)),*],)?
             prop: |inp| {
@@ -369,9 +369,17 @@ macro_rules! g_frame1 {
                 vassume!(valid(&inp[..S]));
                 let mut a = core::mem::MaybeUninit::<$ty>::uninit();
                 generic::fill(&mut a, &inp[..S]);
-                let blk: [u8; $bs] = take(&inp[..], S);
-                let mut b: cipher::Block<$ty> = blk.into();
-                g_dir!($dir, block, generic::as_ref(&a), &mut b);
+                let x: [u8; $bs] = take(&inp[..], S);
+                let y: [u8; $bs] = take(&inp[..], S + $bs);
+                // history on one instance: op(x); op(y); op(x) -- the first and the third result must agree (no hidden
+                // state in the instance, in a static or behind interior mutability), and the instance bytes are unchanged
+                let mut b1: cipher::Block<$ty> = x.into();
+                g_dir!($dir, block, generic::as_ref(&a), &mut b1);
+                let mut b2: cipher::Block<$ty> = y.into();
+                g_dir!($dir, block, generic::as_ref(&a), &mut b2);
+                let mut b3: cipher::Block<$ty> = x.into();
+                g_dir!($dir, block, generic::as_ref(&a), &mut b3);
+                vcheck!(b1 == b3);
                 let mut i = 0;
                 while i < S {
                     vcheck!(generic::peek(&a, i) == inp[i]);
@@ -403,8 +411,6 @@ macro_rules! g_blocks1 {
                 let mut a = core::mem::MaybeUninit::<$ty>::uninit();
                 generic::fill(&mut a, &inp[..S]);
                 let c = generic::as_ref(&a);
-                let n = inp[S + NB * $bs] as usize;
-                vassume!(n <= NB);
                 let mut x = [[0u8; $bs]; NB];
                 let mut r: [Block<$ty>; NB] = [[0u8; $bs].into(); NB];
                 let mut j = 0;
@@ -414,33 +420,47 @@ macro_rules! g_blocks1 {
                     g_dir!($dir, block, c, &mut r[j]);      // reference: in-place single-block call
                     j += 1;
                 }
-                // multi-block b2b
-                let mut ins: [Block<$ty>; NB] = [[0u8; $bs].into(); NB];
-                let mut outs: [Block<$ty>; NB] = [[0xA5u8; $bs].into(); NB];
-                j = 0;
-                while j < NB {
-                    ins[j] = x[j].into();
-                    j += 1;
+                // every block count n = 0..=NB, enumerated concretely (a symbolic n would make the call counters of
+                // uninterpreted-function logs symbolic); the block CONTENTS and the state are symbolic in every case
+                let mut n = 0;
+                while n <= NB {
+                    // multi-block b2b
+                    let mut ins: [Block<$ty>; NB] = [[0u8; $bs].into(); NB];
+                    let mut outs: [Block<$ty>; NB] = [[0xA5u8; $bs].into(); NB];
+                    j = 0;
+                    while j < NB {
+                        ins[j] = x[j].into();
+                        j += 1;
+                    }
+                    vcheck!(g_dir!($dir, blocks_b2b, c, &ins[..n], &mut outs[..n]).is_ok());
+                    j = 0;
+                    while j < NB {
+                        vcheck!(ins[j].0 == x[j]);
+                        if j < n { vcheck!(outs[j] == r[j]); } else { vcheck!(outs[j].0 == [0xA5u8; $bs]); }
+                        j += 1;
+                    }
+                    // multi-block in place
+                    let mut bl: [Block<$ty>; NB] = ins;
+                    g_dir!($dir, blocks, c, &mut bl[..n]);
+                    j = 0;
+                    while j < NB {
+                        if j < n { vcheck!(bl[j] == r[j]); } else { vcheck!(bl[j].0 == x[j]); }
+                        j += 1;
+                    }
+                    n += 1;
                 }
-                vcheck!(g_dir!($dir, blocks_b2b, c, &ins[..n], &mut outs[..n]).is_ok());
-                j = 0;
-                while j < NB {
-                    vcheck!(ins[j].0 == x[j]);
-                    if j < n { vcheck!(outs[j] == r[j]); } else { vcheck!(outs[j].0 == [0xA5u8; $bs]); }
-                    j += 1;
-                }
-                // multi-block in place
-                let mut bl: [Block<$ty>; NB] = ins;
-                g_dir!($dir, blocks, c, &mut bl[..n]);
-                j = 0;
-                while j < NB {
-                    if j < n { vcheck!(bl[j] == r[j]); } else { vcheck!(bl[j].0 == x[j]); }
-                    j += 1;
+                // mismatched lengths are rejected and write nothing
+                if NB >= 2 {
+                    let ins: [Block<$ty>; NB] = [[0u8; $bs].into(); NB];
+                    let mut outs: [Block<$ty>; NB] = [[0xA5u8; $bs].into(); NB];
+                    vcheck!(g_dir!($dir, blocks_b2b, c, &ins[..1], &mut outs[..2]).is_err());
+                    vcheck!(outs[0].0 == [0xA5u8; $bs] && outs[1].0 == [0xA5u8; $bs]);
                 }
                 // single-block b2b
+                let i0: Block<$ty> = x[0].into();
                 let mut o: Block<$ty> = [0u8; $bs].into();
-                g_dir!($dir, block_b2b, c, &ins[0], &mut o);
-                vcheck!(ins[0].0 == x[0]);
+                g_dir!($dir, block_b2b, c, &i0, &mut o);
+                vcheck!(i0.0 == x[0]);
                 Some(o == r[0])
             }
         }
